@@ -87,12 +87,25 @@ def _eq_runs(got, exp, m):
     return True
 
 
-def gantt(p, ctx):
+def _both_representations(core):
+    """Symbolic run: entries are solver ints.  Replay: once with enum members, once with plain ints."""
+    def run(p, ctx):
+        if ctx.symbolic:
+            return core(p, ctx, False)
+        core(p, ctx, False)
+        sig, nt = ctx.sig, ctx.nontrivial
+        core(p, ctx, True)
+        ctx.sig, ctx.nontrivial = sig, nt
+    run.__name__ = core.__name__
+    return run
+
+
+def _gantt(p, ctx, as_int):
     kind = p["kind"]
     n = p["n"]
     seq = list(p.get("prefix", [])) + [p["s%d" % i] for i in range(len(p.get("prefix", [])), n)]
     m = p["q"] / 2
-    o = _mk(kind, seq, ctx.symbolic)
+    o = _mk(kind, seq, ctx.symbolic, as_int=as_int)
     ok, r = ctx.call(o.get_time_list_for_gannt_chart, finish_margin=m)
     if not ok:
         ctx.fail("gantt:%s:raises:%s" % (kind, exc_tag(r)))
@@ -125,6 +138,9 @@ def gantt(p, ctx):
     ctx.nontrivial = nruns >= 1
     if nruns >= 2:
         ctx.cover("gantt:%s:multi-run" % kind)
+
+
+gantt = _both_representations(_gantt)
 
 
 def extract(p, ctx):
@@ -190,7 +206,7 @@ def extract(p, ctx):
     ctx.nontrivial = len(exp) > 0
 
 
-def rows(p, ctx):
+def _rows(p, ctx, as_int):
     """create_data_for_gantt_plotly: index k -> init_datetime + k * unit_timedelta."""
     from pDESy.model.base_team import BaseTeam
     from pDESy.model.base_workplace import BaseWorkplace
@@ -198,7 +214,7 @@ def rows(p, ctx):
     kind = p["kind"]
     n = p["n"]
     seq = [p["s%d" % i] for i in range(n)]
-    o = _mk(kind, seq, ctx.symbolic)
+    o = _mk(kind, seq, ctx.symbolic, as_int=as_int)
     init = datetime.datetime(2024, 2, 28, 23, 58, 0, p.get("us", 0))
     u = p["u"]  # concrete per cube (minutes; seconds when "unit_s" is set)
     unit = datetime.timedelta(seconds=u) if p.get("unit_s") else datetime.timedelta(minutes=u)
@@ -244,6 +260,9 @@ def rows(p, ctx):
             ctx.cover("rows:ready")
     ctx.sig = ("rows", kind, n, u, tuple(got))
     ctx.nontrivial = len(exp) > 0
+
+
+rows = _both_representations(_rows)
 
 
 def lastdate(p, ctx):
